@@ -3,6 +3,7 @@
 //! Usage: vcore <Cxx> [--tier quick|thorough] [--replay <file>]
 
 mod c01;
+mod c03;
 mod c04;
 mod c06;
 mod c07;
@@ -26,12 +27,20 @@ fn main() {
         eprintln!("usage: vcore <Cxx> [--tier quick|thorough] [--replay <file>]");
         std::process::exit(2);
     }
+    // keep large, short-lived allocations (probe buffers, hop tables) in the heap instead of
+    // mmap/munmap churn: every execution rebuilds the whole tracer
+    unsafe {
+        libc::mallopt(libc::M_MMAP_THRESHOLD, 1 << 30);
+        libc::mallopt(libc::M_TRIM_THRESHOLD, 1 << 30);
+        libc::mallopt(libc::M_TOP_PAD, 64 << 20);
+    }
     mc::install_panic_hook();
     vclock::self_test();
     wire::self_test();
     let args = report::parse_args(&argv[2..]);
     let code = match argv[1].as_str() {
         "C01" => c01::run(&args),
+        "C03" => c03::run(&args),
         "C04" => c04::run(&args),
         "C06" => c06::run(&args),
         "C07" => c07::run(&args),
